@@ -73,8 +73,9 @@ fn check(input: &str, rng: &mut Rng, st: &mut Stats, exhaustive_two: bool) {
     let base = XmlOpts::default();
     let reference = match result(input, &[], &base, None) {
         Ok(r) => r,
-        Err(_) => {
+        Err(m) => {
             st.count("reference_panicked");
+            st.violation(&format!("panic:{}", crate::report::panic_signature(&m)), &format!("xml input={}: the one-piece default parse panicked: {m}", show(input)), json!({"kind": "panic", "input": input}));
             return;
         },
     };
